@@ -386,6 +386,13 @@ theorem C02_matmul2d_FT_left_closure_is_transpose [AddLaws S] [MulLaws S] [CommL
     dot (specMatmul a false b true none).vals x.vals = dot a.vals (specMatmul x false b false none).vals :=
   matmul2d_FT_adjoint_left a b x m k n ha hb hx hwa hwx
 
+/-- **`a · bᵀ`, right closure** (the filters' side of `conv`'s product): for `a : [m,k]`, `b : [n,k]`, delta
+    `x : [m,n]`: `⟨a·bᵀ, x⟩ = ⟨b, xᵀ·a⟩`, the right-hand product being `specMatmul x true a false none`. -/
+theorem C02_matmul2d_FT_right_closure_is_transpose [AddLaws S] [MulLaws S] [CommLaws S] (a b x : Tensor S) (m k n : Nat)
+    (ha : a.dims = [m, k]) (hb : b.dims = [n, k]) (hx : x.dims = [m, n]) (hwb : b.WF) (hwx : x.WF) :
+    dot (specMatmul a false b true none).vals x.vals = dot b.vals (specMatmul x true a false none).vals :=
+  matmul2d_FT_adjoint_right a b x m k n ha hb hx hwb hwx
+
 end Corgi
 
 #print axioms Corgi.exHeap_shapeOK
@@ -401,3 +408,4 @@ end Corgi
 #print axioms Corgi.C02_unroll_closure_is_transpose_total
 #print axioms Corgi.C02_unroll_blocks_closure_is_transpose
 #print axioms Corgi.C02_matmul2d_FT_left_closure_is_transpose
+#print axioms Corgi.C02_matmul2d_FT_right_closure_is_transpose
